@@ -1,1 +1,31 @@
-fn main(){ println!("{}", serde_json::json!({"a":1})); }
+use lsverif::core::Tier;
+use lsverif::engine;
+use lsverif::props::registry;
+
+fn main() {
+    let args: Vec<String> = std::env::args().collect();
+    let reg = registry();
+    let code = match args.get(1).map(|s| s.as_str()) {
+        Some("check") => {
+            let id = args.get(2).cloned().unwrap_or_default();
+            let tier = args.iter().position(|a| a == "--tier").and_then(|i| args.get(i + 1)).map(|s| Tier::parse(s)).unwrap_or(Tier::Quick);
+            engine::check_main(&reg, &id, tier)
+        }
+        Some("worker") => engine::worker_main(&reg, &args[2..]),
+        Some("probe") => engine::probe_main(&reg, &args[2..]),
+        Some("replay") => engine::replay_main(&reg, &args[2]),
+        Some("choices") => engine::choices_main(&reg, &args[2..]),
+        Some("describe") => engine::describe_main(&reg, &args[2..]),
+        Some("list") => {
+            for p in &reg.props {
+                println!("{} {}", p.id, p.title);
+            }
+            0
+        }
+        _ => {
+            eprintln!("usage: lsverif check <Cxx> [--tier quick|thorough] | replay <file> | list");
+            2
+        }
+    };
+    std::process::exit(code);
+}
